@@ -5,7 +5,7 @@
     accepted under exactly the valuations under which pattern j of the second
     is; in particular compiled alone or together makes no difference. *)
 From PM Require Import Model.Prelude Model.Domain Model.Automaton
-  Model.Traversal Model.DomString Cert.LabCheck Cert.WinCheck Proofs.AbsEquiv Proofs.StringExact Properties.C03.
+  Model.Traversal Model.DomString Model.DomMatrix Cert.LabCheck Cert.WinCheck Proofs.AbsEquiv Proofs.StringExact Proofs.MatrixExact Properties.C03.
 
 Theorem c06_pattern_independent_acceptance :
   forall (K V M H P : Type) (D : DomOps K V M H P), DomEq D ->
@@ -38,5 +38,15 @@ Theorem c06_string_runs_agree :
     ((exists len, In (N.of_nat i, SBound a len) ms1) <-> (exists len, In (N.of_nat j, SBound a len) ms2)).
 Proof. exact s_certified_agree. Qed.
 
+Theorem c06_matrix_runs_agree :
+  forall A1 L1 rk1 ids1 pats1 pr1 A2 L2 rk2 ids2 pats2 pr2 h f1 f2 ms1 ms2 i j (p : mpattern) s,
+    m_certified A1 L1 rk1 ids1 pats1 pr1 -> m_certified A2 L2 rk2 ids2 pats2 pr2 ->
+    run matrix_dom f1 A1 h = Ok ms1 -> run matrix_dom f2 A2 h = Ok ms2 ->
+    nth_error pats1 i = Some p -> nth_error pr1 i = Some true ->
+    nth_error pats2 j = Some p -> nth_error pr2 j = Some true ->
+    ((exists a b, In (N.of_nat i, MBound s a b) ms1) <-> (exists a b, In (N.of_nat j, MBound s a b) ms2)).
+Proof. exact m_certified_agree. Qed.
+
 Print Assumptions c06_pattern_independent_acceptance.
+Print Assumptions c06_matrix_runs_agree.
 Print Assumptions c06_string_runs_agree.
